@@ -92,16 +92,25 @@ def o_deriv(deriv):
     # --- the middleware alone: strings untouched, fields hold the definition's raw value
     base = Splitter(text).split()
     only = bibtexparser.parse_string(text, parse_stack=[libgen.maybe_preuse(ResolveStringReferencesMiddleware(), text)])
-    for b0, b1, e in zip(base.blocks, only.blocks, expected):
-        if e["kind"] != "entry":
-            if canon(b0) != canon(b1):
-                return (("alone:non-entry-changed", splitcheck.describe_block(b1), splitcheck.describe_block(b0)), True, sorted(cls))
-        elif type(b1) is Entry:
-            for f, ef in zip(b1.fields, e["fields"]):
-                v = ef["value"]
-                want = defs[v] if (IDENT.match(v) and v in defs) else v
-                if f.value != want:
-                    return (("alone:field", f"{ef['key']!r} = {f.value!r}", repr(want)), True, sorted(cls))
+    # ... and the copying variant of the same middleware (allow_inplace_modification=False), applied directly
+    src = Splitter(text).split()
+    copied = libgen.maybe_preuse(ResolveStringReferencesMiddleware(allow_inplace_modification=False), text + "c", same=src).transform(src)
+    if canon(src) != canon(base):
+        return (("alone:copy-mode:input-changed", "the library handed to the copying middleware changed", "unchanged"), True, sorted(cls))
+    for label, res in (("alone", only), ("alone:copy-mode", copied)):
+        if len(res.blocks) != len(base.blocks):
+            return ((label + ":block-count", repr([splitcheck.describe_block(b) for b in res.blocks]), f"{len(base.blocks)} blocks"), True, sorted(cls))
+        for b0, b1, e in zip(base.blocks, res.blocks, expected):
+            if e["kind"] != "entry":
+                if canon(b0) != canon(b1):
+                    return ((label + ":non-entry-changed", splitcheck.describe_block(b1), splitcheck.describe_block(b0)), True, sorted(cls))
+            elif type(b1) is Entry:
+                for f, ef in zip(b1.fields, e["fields"]):
+                    v = ef["value"]
+                    want = defs[v] if (IDENT.match(v) and v in defs) else v
+                    if f.value != want:
+                        return ((label + ":field", f"{ef['key']!r} = {f.value!r}", repr(want)), True, sorted(cls))
+    cls.add("copy-mode")
     if n_resolved:
         cls.add("resolved")
     return (None, n_resolved > 0 and n_lookalike > 0, sorted(cls))
